@@ -61,9 +61,10 @@ theorem copies_complete_flows :
      ("clientCredentials.flow", "=application"), ("clientCredentials.tokenUrl", "tokenUrl")].all
       (fun row => KinModel.Gen.fromV3SecTable.contains row) = true := by decide
 
-/-- the missing row behind finding F-C17-4: FromV3RequestBodyFormData has no `format` row -/
-theorem copies_missing_rows :
-    lookupSrc "format" KinModel.Gen.fromV3FormTable = none := by decide
+/-- F-C17-4 repaired (ddd71cc): FromV3RequestBodyFormData has a `format` row — the local that is `val.Format`
+    unless that is `binary` (formerly `copies_missing_rows`: no such row) -/
+theorem form_format_copied :
+    lookupSrc "format" KinModel.Gen.fromV3FormTable = some "<local>" := by decide
 
 /-- the typed fields both schema converters set by statements after the literal are the ones the model handles
     outside its tables — in particular the discriminator is assigned in both directions (e0e4b64) -/
@@ -77,6 +78,10 @@ theorem opAssigned_is_code :
     KinModel.Gen.toV3OpAssigned = toV3OpAssigned ∧ KinModel.Gen.fromV3OpAssigned = fromV3OpAssigned ∧
     KinModel.Gen.toV3OpAssigned.contains "security" = true ∧ KinModel.Gen.fromV3OpAssigned.contains "security" = true := by
   decide
+
+/-- the nullable copy reads the VALUE of the extension (not its presence), and the way back writes the constant
+    `true` under `PermitsNull` -/
+theorem nullableTable_is_code : KinModel.Gen.nullableTable = nullableTable := by decide
 
 theorem discriminator_assigned_both_ways :
     KinModel.Gen.toV3SchemaAssigned.contains "discriminator" = true ∧
@@ -96,25 +101,8 @@ theorem missing_row_loses {V : Type} [Inhabited V] (f : String) (table : List (S
 
 /-! ## schemas -/
 
-/-- a reference-free, `x-nullable`-free, `file`-free schema means the same read as v2 or as v3 -/
-theorem abs3S_eq_abs2S_of_refFree {V : Type} (s : Sch V) (h : refFree s = true) (hw : v2Refs s = true) :
-    abs3S s = abs2S s := by
-  refine (Sch.induct (P := fun s => refFree s = true → v2Refs s = true → abs3S s = abs2S s)
-    (Q := fun ks => refFreeKids ks = true → v2RefsKids ks = true → abs3Kids ks = abs2Kids ks) ?_ ?_ ?_ ?_).1 s h hw
-  · intro k n h; simp [refFree] at h
-  · intro hd kids ih h hw
-    simp only [refFree, Bool.and_eq_true, Bool.not_eq_true', beq_eq_false_iff_ne, ne_eq] at h
-    simp only [v2Refs, Bool.and_eq_true, Bool.not_eq_true'] at hw
-    simp only [abs3S, abs2S, ih h.2 hw.2]
-    congr 1
-    simp [abs3Hd, abs2Hd, fileToBinary, h.1.1, h.1.2, hw.1]
-  · intro _ _; simp [abs3Kids, abs2Kids]
-  · intro sl c rest ihc ihr h hw
-    simp only [refFreeKids, Bool.and_eq_true] at h
-    simp only [v2RefsKids, Bool.and_eq_true] at hw
-    simp [abs3Kids, abs2Kids, ihc h.1 hw.1, ihr h.2 hw.2]
-
-/-- convertRefsInV3SchemaRef is complete on a pure additionalProperties sub-schema -/
+/-- convertRefsInV3SchemaRef is complete on an additionalProperties sub-schema without `x-nullable` / `file`:
+    every reference below it is rewritten (00eb646) -/
 theorem addlToV3_preserves {V : Type} (s : Sch V) (h : addlPure s = true) (hw : v2Refs s = true) :
     abs3S (addlToV3 s) = abs2S s := by
   refine (Sch.induct (P := fun s => addlPure s = true → v2Refs s = true → abs3S (addlToV3 s) = abs2S s)
@@ -131,13 +119,10 @@ theorem addlToV3_preserves {V : Type} (s : Sch V) (h : addlPure s = true) (hw : 
   · intro sl c rest ihc ihr h hw
     simp only [addlPureKids, Bool.and_eq_true] at h
     simp only [v2RefsKids, Bool.and_eq_true] at hw
-    by_cases hs : sl = Slot.addl
-    · simp only [hs, if_true] at h
-      simp [addlKids, abs3Kids, abs2Kids, hs, ihc h.1 hw.1, ihr h.2 hw.2]
-    · simp only [hs, if_false] at h
-      simp [addlKids, abs3Kids, abs2Kids, hs, abs3S_eq_abs2S_of_refFree c h.1 hw.1, ihr h.2 hw.2]
+    simp [addlKids, abs3Kids, abs2Kids, ihc h.1 hw.1, ihr h.2 hw.2]
 
-/-- Full statement: `∀ s, abs3S (toV3S s) = abs2S s`. It fails inside `addlImpure` (finding F-C17-8).
+/-- Full statement: `∀ s, abs3S (toV3S s) = abs2S s`. It fails inside `addlImpure` (what is left of F-C17-8:
+    `x-nullable` / `type: file` inside an additionalProperties sub-schema; the references part is repaired, 00eb646).
     **ToV3SchemaRef preserves what a schema says**: same type/format (file = binary string), nullability,
     discriminator, required list, every constraint keyword, the same sub-schemas in the same slots, every
     reference rewritten to its v3 location. -/
@@ -169,6 +154,14 @@ theorem toV3S_witness_addl :
   simp [addlImpure, addlImpureKids, addlPure, addlPureKids, toV3S, toV3Kids, addlToV3, addlKids, abs3S, abs3Kids,
     abs2S, abs2Kids, abs3Hd, abs2Hd]
 
+/-- regression (F-C17-8, references part, fixed by 00eb646): a reference below `items` of an additionalProperties
+    sub-schema is rewritten — on the way to v3 (so ResolveRefsIn does not fail) and on the way back -/
+theorem toV3S_regression_addlItemsRef :
+    let s : Sch Nat := .node { ty := some "object" } [(Slot.addl, .node { ty := some "array" } [(Slot.items, .ref RK.def2 "E")])]
+    addlImpure s = false ∧ abs3S (toV3S s) = abs2S s ∧ refsOf (toV3S s) = [RK.def3] ∧
+    refsOf (fromV3S (toV3S s)) = [RK.def2] := by
+  exact ⟨rfl, rfl, rfl, rfl⟩
+
 /-- fromV3AdditionalProperties undoes toV3AdditionalProperties on a v2 additionalProperties sub-schema: every
     reference on the additionalProperties chain is back in its v2 form, everything else is untouched -/
 theorem addl_roundtrip {V : Type} (s : Sch V) (h : v2Refs s = true) : addlFromV3 (addlToV3 s) = s := by
@@ -182,9 +175,7 @@ theorem addl_roundtrip {V : Type} (s : Sch V) (h : v2Refs s = true) : addlFromV3
   · intro _; simp [addlKids, addlBackKids]
   · intro sl c rest ihc ihr h
     simp only [v2RefsKids, Bool.and_eq_true] at h
-    by_cases hs : sl = Slot.addl
-    · simp [addlKids, addlBackKids, hs, ihc h.1, ihr h.2]
-    · simp [addlKids, addlBackKids, hs, ihr h.2]
+    simp [addlKids, addlBackKids, ihc h.1, ihr h.2]
 
 /-- **The round trip gives back a v2 schema that says the same**: for every v2 schema (v2 references, no v3
     keyword), `abs2S (fromV3S (toV3S s)) = abs2S s` — type/format, nullability, discriminator, required list, every
@@ -383,55 +374,58 @@ theorem toV3Form_preserves {V : Type} (p : Param2 V) (hi : itemsOK3 p.items = tr
   · cases hr : p.required <;> simp [toV3FormProp, propRequired, hr]
 
 
-/-- Full statement: `inputA2 (fromV3FormProp p.name (clearReq (toV3FormProp p))) = inputA2 (.val p)` for every
-    formData parameter. It fails inside `formLossy`. -/
-theorem roundtripForm_partial {V : Type} (p : Param2 V) (hl : p.loc = "formData") (hx : formLossy p = false)
-    (hi : itemsOKBack p.items = true) :
-    inputA2 (fromV3FormProp p.name (clearReq (toV3FormProp p))) = inputA2 (.val p) := by
-  simp only [formLossy, Bool.or_eq_false_iff, Bool.and_eq_false_iff] at hx
-  have hreq := hx.1
+/-- **a form field comes back with its name, requiredness, type / format and constraints** — full strength since
+    ddd71cc (format) and 9a423cc (required, read from the object schema `objReq` where formDataBody put it);
+    formerly `roundtripForm_partial` outside `formLossy` -/
+theorem roundtripForm {V : Type} (objReq : List String) (p : Param2 V) (hl : p.loc = "formData")
+    (hreq : objReq.contains p.name = p.required) (hi : itemsOKBack p.items = true) (hf : formFmtOK p = true) :
+    inputA2 (fromV3FormProp objReq p.name (clearReq (toV3FormProp p))) = inputA2 (.val p) := by
+  simp only [formFmtOK, Bool.or_eq_true, bne_iff_ne, ne_eq, beq_iff_eq] at hf
   unfold toV3FormProp
   simp only [clearReq, fromV3FormProp, inputA2, hl, hreq]
-  simp only [show ("formData" : String) ≠ "body" by decide, if_false, if_true, List.contains_nil]
+  simp only [show ("formData" : String) ≠ "body" by decide, if_false, if_true, List.contains_nil, Bool.false_or]
   congr 1
   unfold paramCons2
   simp only [abs2S]
   congr 1
-  · rcases hx.2 with hf | ht
-    · have : p.cons.fmt = none := by simpa using hf
-      by_cases hfile : p.cons.ty = some "file"
-      · simp [abs2Hd, fileToBinary, hfile, sc_form_roundtrip]
-      · simp [abs2Hd, fileToBinary, hfile, this, sc_form_roundtrip]
-    · have hfile : p.cons.ty = some "file" := by simpa using ht
-      simp [abs2Hd, fileToBinary, hfile, sc_form_roundtrip]
+  · by_cases hfile : p.cons.ty = some "file"
+    · simp [abs2Hd, fileToBinary, hfile, sc_form_roundtrip]
+    · by_cases hb : p.cons.fmt = some "binary"
+      · have hstr : p.cons.ty = some "string" := by
+          rcases hf with (hf | hf) | hf
+          · exact absurd hb hf
+          · exact hf
+          · exact absurd hf hfile
+        simp [abs2Hd, fileToBinary, hb, hstr, sc_form_roundtrip]
+      · simp [abs2Hd, fileToBinary, hfile, hb, sc_form_roundtrip]
   · cases hit : p.items with
     | none => simp [itemsKids, kidItems, abs2Kids]
     | some s =>
       simp only [itemsOKBack, hit, Option.all_some] at hi
       simp [itemsKids, kidItems, abs2Kids, roundtripS s hi]
 
-/-- witness (#21c): a required form field comes back optional -/
-theorem roundtripForm_witness_required :
+/-- regression (F-C17-3, fixed by 9a423cc; formerly the witness of `FormRequiredLost`): a required form field
+    comes back required — the object schema lists it -/
+theorem roundtripForm_regression_required :
     let p : Param2 Nat := { name := "f", loc := "formData", required := true, cons := { ty := some "string" },
                             items := none, schema := none }
-    formLossy p = true ∧ inputA2 (fromV3FormProp p.name (clearReq (toV3FormProp p))) ≠ inputA2 (.val p) := by
-  simp [formLossy, toV3FormProp, clearReq, fromV3FormProp, inputA2]
+    inputA2 (fromV3FormProp ["f"] p.name (clearReq (toV3FormProp p))) = inputA2 (.val p) := by
+  rfl
 
-/-- witness (F-C17-4): `format: date` of a form field is lost -/
-theorem roundtripForm_witness_format :
+/-- regression (F-C17-4, fixed by ddd71cc; formerly the witness of `FormFormatLost`): `format: date` of a form
+    field comes back -/
+theorem roundtripForm_regression_format :
     let p : Param2 Nat := { name := "f", loc := "formData", required := false,
                             cons := { ty := some "string", fmt := some "date" }, items := none, schema := none }
-    formLossy p = true ∧ inputA2 (fromV3FormProp p.name (clearReq (toV3FormProp p))) ≠ inputA2 (.val p) := by
-  simp [formLossy, toV3FormProp, clearReq, fromV3FormProp, inputA2, paramCons2, abs2S, abs2Hd, fileToBinary]
+    inputA2 (fromV3FormProp [] p.name (clearReq (toV3FormProp p))) = inputA2 (.val p) := by
+  rfl
 
-/-- non-vacuity: an optional file upload and an optional constrained array field are outside the exclusion -/
+/-- non-vacuity: a required constrained array field satisfies the hypotheses -/
 example :
-    let p : Param2 Nat := { name := "up", loc := "formData", required := false, cons := { ty := some "file" },
-                            items := none, schema := none }
-    let q : Param2 Nat := { name := "l", loc := "formData", required := false,
+    let q : Param2 Nat := { name := "l", loc := "formData", required := true,
                             cons := { ty := some "array", sc := [("maxItems", 3)] },
                             items := some (.node { ty := some "integer", sc := [("minimum", 1)] } []), schema := none }
-    formLossy p = false ∧ formLossy q = false ∧ itemsOKBack q.items = true ∧ itemsOK3 q.items = true := by
+    itemsOKBack q.items = true ∧ itemsOK3 q.items = true ∧ ["l"].contains q.name = q.required ∧ formFmtOK q = true := by
   decide
 
 /-! ## responses -/
@@ -493,8 +487,10 @@ theorem headers_roundtrip {V : Type} (hs : List (String × Param2 V)) (h : hs.al
     simp only [paramCons2] at this ⊢
     simpa [fromV3Param, toV3Param, toV3S, fromV3S, paramSchema2] using this
 
-/-- Full statement: `respA2 (fromV3Resp (toV3Resp produces r)) = respA2 r`. It fails inside `respLossy`. -/
-theorem roundtripResp_partial {V : Type} (produces : List String) (r : RRef2 V) (hx : respLossy produces r = false)
+/-- **each response comes back with its description, headers and schema**, whatever `produces` says — full strength
+    since bf34df1 (the schema is taken from the first media type when there is no application/json); formerly
+    `roundtripResp_partial` outside `respLossy` -/
+theorem roundtripResp {V : Type} (produces : List String) (r : RRef2 V)
     (hok : match r with
       | .ref k _ => k.isV2 = true
       | .val x => x.headers.all headerOKBack = true ∧ schemaOKBack x.schema = true) :
@@ -509,25 +505,24 @@ theorem roundtripResp_partial {V : Type} (produces : List String) (r : RRef2 V) 
     cases hs : x.schema with
     | none => simp only [Option.map_none, ite_self]; congr 1
     | some s =>
-      simp only [respLossy, hs, Option.isSome_some, Bool.true_and, Bool.not_eq_false'] at hx
+      have hne : (effProduces produces).isEmpty = false := by
+        unfold effProduces; cases hp : produces.isEmpty <;> simp [hp]
       simp only [schemaOKBack, hs, Option.all_some] at hok
-      simp only [Option.map_some, hx, if_true, roundtripS s hok.2]
+      simp only [Option.map_some, hne, Bool.false_eq_true, if_false, roundtripS s hok.2]
       congr 1
 
-/-- witness (#26): `produces: [application/xml]` — the response schema does not come back -/
-theorem roundtripResp_witness_produces :
+/-- regression (F-C17-5, fixed by bf34df1; formerly the witness of `ResponseSchemaNonJSON`):
+    `produces: [application/xml]` — the response schema comes back -/
+theorem roundtripResp_regression_produces :
     let r : RRef2 Nat := .val { desc := "ok", headers := [], schema := some (.node { ty := some "string" } []) }
-    respLossy ["application/xml"] r = true ∧
-    respA2 (fromV3Resp (toV3Resp ["application/xml"] r)) ≠ respA2 r := by
-  simp [respLossy, effProduces, toV3Resp, fromV3Resp, respA2]
+    respA2 (fromV3Resp (toV3Resp ["application/xml"] r)) = respA2 r := by
+  rfl
 
-/-- non-vacuity: a 302 with a Location header and no schema, under `produces: [application/xml]`, is outside
-    the exclusion (and inside the hypotheses of both response theorems) -/
+/-- non-vacuity: a 302 with a Location header and no schema, under `produces: [application/xml]` -/
 example :
     let h : Param2 Nat := { name := "", loc := "", required := false, cons := { ty := some "string" },
                             items := none, schema := none }
     let r : RRef2 Nat := .val { desc := "moved", schema := none, headers := [("Location", h)] }
-    respLossy ["application/xml"] r = false ∧
     (match r with | .ref k _ => k.isV2 = true | .val x => x.headers.all headerOKBack = true ∧ schemaOKBack x.schema = true) := by
   decide
 
@@ -570,80 +565,72 @@ theorem servers_witness_basePath :
   decide
 
 /-- Full statement: the servers of `fromV3Servers (toV3Servers l)` are those of `l` (as a set). It fails when
-    `host` is absent (#39) or a scheme other than http/https is listed (F-C17-10). -/
+    `host` is absent (#39). The four schemes of OpenAPI 2 all come back since a84c8a2 (formerly http / https only). -/
 theorem servers_roundtrip_partial (l : Loc2) (h : l.host ≠ "")
-    (hs : ∀ x ∈ l.schemes, x = "http" ∨ x = "https") :
+    (hs : ∀ x ∈ l.schemes, schemeOK x = true) :
     ∀ x, x ∈ serversA2 (fromV3Servers (toV3Servers l)) ↔ x ∈ serversA2 l := by
   intro x
-  cases hsch : l.schemes with
-  | nil =>
-    simp [toV3Servers, fromV3Servers, serversA2, h, hsch]
+  have h3 : toV3Servers l = (if l.schemes.isEmpty then ["https"] else l.schemes).map
+      (fun sch => ({ scheme := sch, host := l.host, base := if l.basePath = "" then "/" else l.basePath } : Server)) := by
+    simp [toV3Servers, h]
+  have h2 : serversA2 l = (if l.schemes.isEmpty then ["https"] else l.schemes).map
+      (fun sch => ({ scheme := sch, host := l.host, base := if l.basePath = "" then "/" else l.basePath } : Server)) := by
+    simp [serversA2, h]
+  have hEok : ∀ y ∈ (if l.schemes.isEmpty then ["https"] else l.schemes), y ∈ schemeOrder := by
+    intro y hy
+    cases hsch : l.schemes with
+    | nil => simp [hsch] at hy; subst hy; decide
+    | cons a r =>
+      simp only [hsch, List.isEmpty_cons, Bool.false_eq_true, if_false] at hy
+      have := hs y (by rw [hsch]; exact hy)
+      simp only [schemeOK, Bool.or_eq_true, beq_iff_eq] at this
+      rcases this with ((h1 | h1) | h1) | h1 <;> subst h1 <;> decide
+  have hEne : (if l.schemes.isEmpty then ["https"] else l.schemes) ≠ [] := by
+    cases hsch : l.schemes <;> simp
+  rw [h2, h3]
+  generalize (if l.schemes.isEmpty then ["https"] else l.schemes) = E at hEok hEne
+  have hBne : (if l.basePath = "" then "/" else l.basePath) ≠ "" := by
     by_cases hb : l.basePath = "" <;> simp [hb]
-  | cons s0 rest =>
-    have hb : (if l.basePath = "" then "/" else l.basePath) ≠ "" := by
-      by_cases hb : l.basePath = "" <;> simp [hb]
-    have hs' : ∀ y, y ∈ s0 :: rest → y = "http" ∨ y = "https" := by simpa [hsch] using hs
-    simp only [toV3Servers, fromV3Servers, serversA2, h, hsch, if_false, List.isEmpty_cons, List.map_cons,
-      List.any_cons, List.any_map, Function.comp_def, false_and, Bool.false_eq_true]
-    have key : ∀ y, y ∈ ((if (s0 == "https" || rest.any (· == "https")) = true then ["https"] else []) ++
-        (if (s0 == "http" || rest.any (· == "http")) = true then ["http"] else [])) ↔ y ∈ s0 :: rest := by
-      intro y
-      constructor
-      · intro hy
-        simp only [List.mem_append] at hy
-        rcases hy with hy | hy
-        · split at hy
-          · rename_i hc
-            simp only [List.mem_singleton] at hy; subst hy
-            simp only [Bool.or_eq_true, beq_iff_eq, List.any_eq_true] at hc
-            rcases hc with hc | ⟨z, hz, hzz⟩
-            · simp [hc]
-            · simp [← hzz, hz]
-          · simp at hy
-        · split at hy
-          · rename_i hc
-            simp only [List.mem_singleton] at hy; subst hy
-            simp only [Bool.or_eq_true, beq_iff_eq, List.any_eq_true] at hc
-            rcases hc with hc | ⟨z, hz, hzz⟩
-            · simp [hc]
-            · simp [← hzz, hz]
-          · simp at hy
-      · intro hy
-        rcases hs' y hy with hy' | hy'
-        · subst hy'
-          have : (s0 == "http" || rest.any (· == "http")) = true := by
-            simp only [List.mem_cons] at hy
-            rcases hy with hy | hy
-            · simp [← hy]
-            · simp only [Bool.or_eq_true, List.any_eq_true]; exact Or.inr ⟨_, hy, by simp⟩
-          simp [this]
-        · subst hy'
-          have : (s0 == "https" || rest.any (· == "https")) = true := by
-            simp only [List.mem_cons] at hy
-            rcases hy with hy | hy
-            · simp [← hy]
-            · simp only [Bool.or_eq_true, List.any_eq_true]; exact Or.inr ⟨_, hy, by simp⟩
-          simp [this]
-    have hne : (((if (s0 == "https" || rest.any (· == "https")) = true then ["https"] else []) ++
-        (if (s0 == "http" || rest.any (· == "http")) = true then ["http"] else [])) : List String).isEmpty = false := by
-      rcases hs' s0 (by simp) with h0 | h0 <;> simp [h0]
-    simp only [hne, Bool.false_eq_true, if_false, hb]
-    simp only [List.mem_map, List.mem_cons]
+  generalize (if l.basePath = "" then "/" else l.basePath) = B at hBne
+  -- what comes back: host, base path and the schemes found among the four, in FromV3's order
+  have hS : ∀ y, y ∈ schemeOrder.filter (fun c => E.contains c) ↔ y ∈ E := by
+    intro y
+    simp only [List.mem_filter, List.contains_iff_mem]
     constructor
-    · rintro ⟨y, hy, rfl⟩
-      have hm := (key y).1 hy
-      simp only [List.mem_cons] at hm
-      rcases hm with rfl | hm
-      · exact Or.inl rfl
-      · exact Or.inr ⟨y, hm, rfl⟩
-    · rintro (rfl | ⟨y, hy, rfl⟩)
-      · exact ⟨s0, (key s0).2 (by simp), rfl⟩
-      · exact ⟨y, (key y).2 (by simp [hy]), rfl⟩
+    · exact fun hy => hy.2
+    · exact fun hy => ⟨hEok y hy, hy⟩
+  have hSne : (schemeOrder.filter (fun c => E.contains c)).isEmpty = false := by
+    cases hE : E with
+    | nil => exact absurd hE hEne
+    | cons a r =>
+      have : a ∈ schemeOrder.filter (fun c => (a :: r).contains c) := by
+        rw [← hE]; exact (hS a).2 (by rw [hE]; simp)
+      cases hf : schemeOrder.filter (fun c => (a :: r).contains c) with
+      | nil => rw [hf] at this; simp at this
+      | cons _ _ => rfl
+  have hback : fromV3Servers (E.map (fun sch => ({ scheme := sch, host := l.host, base := B } : Server))) =
+      { host := l.host, basePath := B, schemes := schemeOrder.filter (fun c => E.contains c) } := by
+    cases hE : E with
+    | nil => exact absurd hE hEne
+    | cons a r =>
+      simp only [fromV3Servers, List.map_cons]
+      congr 1
+      apply List.filter_congr
+      intro c _
+      have := any_scheme_map l.host B c (a :: r)
+      simpa using this
+  rw [hback]
+  simp only [serversA2, h, hBne, false_and, if_false, hSne, Bool.false_eq_true, List.mem_map]
+  constructor
+  · rintro ⟨y, hy, rfl⟩
+    exact ⟨y, (hS y).1 hy, rfl⟩
+  · rintro ⟨y, hy, rfl⟩
+    exact ⟨y, (hS y).2 hy, rfl⟩
 
-/-- witness (F-C17-10): scheme `ws` is lost by the round trip (the result is read as https) -/
-theorem servers_witness_ws :
+/-- regression (F-C17-10, fixed by a84c8a2; formerly the witness of `SchemeNotHttp`): scheme `ws` comes back -/
+theorem servers_regression_ws :
     let l : Loc2 := { host := "h", basePath := "/", schemes := ["ws"] }
-    serversA2 (fromV3Servers (toV3Servers l)) ≠ serversA2 l := by
+    serversA2 (fromV3Servers (toV3Servers l)) = serversA2 l := by
   decide
 
 /-! ## documents -/
